@@ -71,6 +71,7 @@ def WFE (σ : MState) : CExpr → Bool
   | .post _ _ _ => false      -- value-producing side effects are outside the pure fragment
   | .call _ _ _ _ => false
   | .stmtexpr _ _ _ => false
+  | .seqexpr _ _ _ _ _ => false
 def WFEs (σ : MState) : List CExpr → List CT → Bool
   | [], _ => true
   | _ :: _, [] => true
